@@ -267,7 +267,71 @@ func c19Debouncer(p *chk.Prog, r *chk.Report) {
 		}
 	}
 	if timerSet == nil {
-		arm.Fail("debouncer:timer-flag", recv.Pos(), "the receive case never sets the timer flag")
+		// no flag: the timer channel itself says whether a timer runs - nil (never ready in the select) while nothing
+		// is pending, the channel of time.After while one is
+		var toObj types.Object
+		if es, isES := timeout.Comm.(*ast.ExprStmt); isES {
+			if u, isU := ast.Unparen(es.X).(*ast.UnaryExpr); isU && u.Op == token.ARROW {
+				toObj = lf.ObjOf(u.X)
+			}
+		}
+		if toObj == nil {
+			arm.Fail("debouncer:timer-flag", recv.Pos(), "the receive case never sets the timer flag")
+			return
+		}
+		isTO := lf.IsObj(toObj)
+		running := g.GExprNil(false, isTO)
+		idle := g.GExprNil(true, isTO)
+		armChan := lf.IsAssignPat("TO", "time.After(D)", chk.H("TO", isTO), chk.H("D", isParamIdx(f, 2)))
+		armed := chk.GOr(chk.GEvent(armChan), running, ignore, closed)
+		okArmed, whereA := true, recv.Pos()
+		endsA := g.RegionEnds(cb, recv, armed)
+		for _, e := range endsA {
+			if !e.OK {
+				okArmed = false
+				if e.From != nil && len(e.From.Nodes) > 0 {
+					whereA = e.From.Nodes[len(e.From.Nodes)-1].Pos()
+				}
+			}
+		}
+		arm.Check("debouncer:receive-arms-timer", whereA, okArmed && len(endsA) > 0, "", "the receive case can end with a pending configuration and no timer armed with the reload interval (the configuration is never applied unless another event arrives)")
+		okPair := true
+		for _, s := range g.Find(func(n ast.Node) bool {
+			as, isAs := n.(*ast.AssignStmt)
+			return isAs && len(as.Lhs) == 1 && isTO(as.Lhs[0]) && chk.Encloses(recv, n)
+		}) {
+			if !armChan(s.Node) || !g.Dominated(s, idle) {
+				okPair = false
+			}
+		}
+		arm.Check("debouncer:arm-sets-channel-and-flag", recv.Pos(), okPair, "", "the timer is re-armed although it is already running (a steady stream of submissions would postpone the reload forever)")
+		for _, s := range g.Find(lf.IsAssignPat("TO", "nil", chk.H("TO", isTO))) {
+			if !chk.Encloses(timeout, s.Node) {
+				rt.Fail("debouncer:timer-cleared-outside-timeout", s.Pos(), "the timer flag is cleared outside the timeout case")
+			}
+		}
+		okBody := g.GErrNil(true, "BODY(C)", chk.H("C", isCfg))
+		failBody := g.GErrNil(false, "BODY(C)", chk.H("C", isCfg))
+		rearm := lf.IsAssignPat("TO", "time.After(D)", chk.H("TO", isTO), chk.H("D", isParamIdx(f, 3)))
+		endState := chk.GOr(chk.GAnd(okBody, idle), chk.GAnd(failBody, running, chk.GEvent(rearm)))
+		tb := caseBlock(g, timeout)
+		okEnd, whereT, nEnd := tb != nil, timeout.Pos(), 0
+		if tb != nil {
+			for _, e := range g.RegionEnds(tb, timeout, endState) {
+				nEnd++
+				if !e.OK {
+					okEnd = false
+					if e.From != nil && len(e.From.Nodes) > 0 {
+						whereT = e.From.Nodes[len(e.From.Nodes)-1].Pos()
+					}
+				}
+			}
+		}
+		rt.Check("debouncer:timeout-case-end-state", whereT, okEnd && nEnd > 0, "", "the timeout case can end with the timer flag clear although the reload action failed (no retry without a new submission), with the flag set after a success, or without the timer re-armed with the retry interval after a failure")
+		for _, c := range bodyCalls {
+			_, isID := ast.Unparen(c.Node.(*ast.CallExpr).Args[0]).(*ast.Ident)
+			rt.Check("debouncer:applies-the-pending-variable", c.Pos(), isID && isCfg(c.Node.(*ast.CallExpr).Args[0]) && declaredOutsideLoop(lf, cfgObj), "", "the configuration applied is not the pending-configuration variable that the receive case stores into")
+		}
 		return
 	}
 	isTS := lf.IsObj(timerSet)
